@@ -85,7 +85,11 @@ def violations(mod, t, v, path="", out=None, depth=0):
             root, ext = C.general_set(specs)
             if not ext and not root.contains(v):
                 sub = ""
-                if v < 0 and root.lb() is not None and root.lb() >= 0 and (root.ub() is None or root.ub() > 2147483647):
+                # the compiler picks the C type from the constraint with every EXCEPT dropped
+                droot = C.IntSet.all()
+                for tree_, e_, a_ in specs:
+                    droot = droot.inter(C.eval_tree(tree_, droot, drop_except=True))
+                if v < 0 and droot.lb() is not None and droot.lb() >= 0 and (droot.ub() is None or droot.ub() > 2147483647):
                     sub = ":negative-into-unsigned"     # the type is kept in an unsigned long
                 elif root.iv == [(0, 4294967295)] and v > 4294967295:
                     sub = ":above-uint32"
